@@ -60,7 +60,15 @@ pub fn run(r: &mut Report) {
                 n += 1;
                 let parsed: Result<PredicateWrapper, _> = serde_json::from_str(&pd.to_string());
                 match parsed {
-                    Ok(p) => { let bytes = no_panic(|| p.clone().into_trait().to_bytes());
+                    Ok(p) => {
+                        // the Value-based entry points agree with the text parser: same value, and the version they name is the version of that value
+                        let via_value = no_panic(|| PredicateWrapper::try_from_value(pd.clone()));
+                        let judged = no_panic(|| PredicateWrapper::judge_from_value(pd));
+                        let ver_of_p = p.clone().into_trait().version();
+                        if !(matches!(&via_value, Ok(Ok(x)) if *x == p) && matches!(&judged, Ok(Ok(v)) if *v == ver_of_p)) && bad.len() < 5 {
+                            bad.push(format!("predicate kind {} with text {:?}: try_from_value / judge_from_value disagree with the parser: {:?} / {:?} (parser: {:?})", i, t,
+                                via_value.as_ref().map(|x| x.as_ref().map(|v| *v == p).map_err(|e| e.to_string())), judged.as_ref().map(|x| x.as_ref().map(|v| format!("{:?}", v)).map_err(|e| e.to_string())), ver_of_p)); }
+                        let bytes = no_panic(|| p.clone().into_trait().to_bytes());
                         let back: Option<PredicateWrapper> = match &bytes { Ok(Ok(b)) => serde_json::from_slice(b).ok(), _ => None };
                         if back.as_ref() != Some(&p) && bad.len() < 5 { bad.push(format!("predicate kind {} with text {:?}: canonical form {:?} does not parse back equal", i, t, bytes.map(|b| b.map(|x| String::from_utf8_lossy(&x).chars().take(90).collect::<String>()).map_err(|e| e.to_string())))); } }
                     Err(e) => { if bad.len() < 5 { bad.push(format!("predicate kind {} with text {:?} rejected: {}", i, t, e)); } }
@@ -70,6 +78,11 @@ pub fn run(r: &mut Report) {
                 let parsed: Result<StatementWrapper, _> = serde_json::from_str(&st.to_string());
                 match parsed {
                     Ok(w) => { let w2: StatementWrapper = serde_json::from_str(&st.to_string()).unwrap();
+                        let via_value = no_panic(|| StatementWrapper::try_from_value(st.clone()));
+                        let judged = no_panic(|| StatementWrapper::judge_from_value(&st));
+                        if !(matches!(&via_value, Ok(Ok(x)) if *x == w) && matches!(&judged, Ok(Ok(v)) if *v == StatementVer::V0_1)) && bad.len() < 5 {
+                            bad.push(format!("statement with predicate kind {} and text {:?}: try_from_value / judge_from_value disagree with the parser: {:?} / {:?}", i, t,
+                                via_value.as_ref().map(|x| x.as_ref().map(|v| *v == w).map_err(|e| e.to_string())), judged.as_ref().map(|x| x.as_ref().map(|v| format!("{:?}", v)).map_err(|e| e.to_string())))); }
                         let bytes = no_panic(|| w2.into_trait().to_bytes());
                         let back: Option<StatementWrapper> = match &bytes { Ok(Ok(b)) => serde_json::from_slice(b).ok(), _ => None };
                         if back.as_ref() != Some(&w) && bad.len() < 5 { bad.push(format!("statement with predicate kind {} and text {:?}: canonical form does not parse back equal", i, t)); } }
